@@ -154,7 +154,7 @@ def shard_fn(shard, nshards, seed, tier, exe, nhist):
                 out.append(c)
         resolved.append((cid, out))
     cases = resolved
-    results, crashes = core.run_script(exe, cases, tag="c11")
+    results, crashes = core.run_script(exe, cases, tag="c11", env=core.ambient_env(sh, shard))
     cmdmap = dict(cases)
     for cr in crashes:
         kind, frame = cr.summary()
